@@ -65,6 +65,10 @@ pub struct Case {
     /// for `FileLimit`: the size limit in bytes
     #[serde(default)]
     pub stdout_limit: u64,
+    /// further markers that must reach stdout when the invocation succeeds (dependencies found in the
+    /// load path although a plain FILE named like the url's directory part sits next to the input)
+    #[serde(default)]
+    pub also_expect: Vec<String>,
 }
 
 fn cli_bin() -> PathBuf {
@@ -450,6 +454,15 @@ pub fn judge(case: &Case, tag: &str, stats: &mut Stats) -> (Vec<(String, String,
             }
         }
     }
+    if matches!(case.stdout, StdoutKind::Normal | StdoutKind::Slow) && status_ok {
+        let text = String::from_utf8_lossy(&out.stdout);
+        for m in &case.also_expect {
+            stats.inc("probe:dependency_behind_blocker_file");
+            if !text.contains(m.as_str()) {
+                fail("wrong_resolution_order", format!("the output does not contain {m}: a dependency that exists in the --load-path was not loaded from there"));
+            }
+        }
+    }
     // places the tool must not search, independently of the library (which shares FsLoader with the tool)
     {
         let text = String::from_utf8_lossy(&out.stdout);
@@ -527,6 +540,7 @@ pub fn gen_case(rng: &mut Rng) -> Case {
     let mut inputs = vec![];
     let mut expect_dep_from = vec![];
     let mut forbidden = vec![];
+    let mut also_expect: Vec<String> = vec![];
     let mut unresolvable = vec![];
     let load_path = if rng.chance(1, 2) { Some(rng.pick(&["lp", "inc/lp"]).to_string()) } else { None };
     if let Some(lp) = &load_path {
@@ -630,10 +644,18 @@ pub fn gen_case(rng: &mut Rng) -> Case {
                 } else {
                     None
                 };
-                let dep = match (pre, dep) {
+                let mut dep = match (pre, dep) {
                     (Some(a), Some(b)) => Some(format!("{a}{b}")),
                     (_, d) => d,
                 };
+                // a url with a directory part whose first component exists next to the input as a plain
+                // FILE: looking there fails with ENOTDIR, and the search must still go on to the load path
+                if let (Some(lp), true) = (&load_path, rng.chance(1, 4)) {
+                    files.insert(join(lp, &format!("pkg{k}/_part{k}.scss")), format!("e{k} {{ from: part{k}-from-lp; }}\n"));
+                    files.insert(join(dir, &format!("pkg{k}")), "a plain file, not a directory\n".to_string());
+                    dep = Some(format!("@use \"pkg{k}/part{k}\";\n{}", dep.unwrap_or_default()));
+                    also_expect.push(format!("part{k}-from-lp"));
+                }
                 files.insert(p.clone(), valid_source(rng, k, dep.as_deref()));
                 inputs.push(p);
             }
@@ -689,6 +711,7 @@ pub fn gen_case(rng: &mut Rng) -> Case {
         expect_dep_from,
         forbidden,
         unresolvable,
+        also_expect,
         argv_form: if rng.chance(1, 2) { 0 } else { rng.below(8) as u8 },
     }
 }
